@@ -90,6 +90,14 @@ def search(run, info):
         texts.append(("operator-pair", gen_prog.render(lx), set()))
     for lx, tree, tag in ast_common.statement_nesting_family(rng):
         texts.append(("statement-nesting", gen_prog.render(lx), set()))
+    # character strings: every two-character escape and '$' next to the closing quote, as initial value and in an expression
+    bodies = ["", "a", "$$", "a$$", "$$a", "$$$$", "USD $$", "$N$L", "a$Nb", "$R$T$P", "x$$$$y$$", "$41", "it is", "$$ $$", "q$$q$$"]
+    for b in bodies:
+        for q in ("'", '"'):
+            ty = "STRING" if q == "'" else "WSTRING"
+            lit = q + b + q
+            texts.append(("string-escapes", "FUNCTION_BLOCK fs\nVAR\ns : %s := %s;\nt : %s;\nEND_VAR\nt := %s;\nt := CONCAT(s, %s);\nEND_FUNCTION_BLOCK\n" % (
+                ty, lit, ty, lit, lit), set()))
     # the witnesses of the recorded renderer gaps for constructs the AST-level generator does not produce
     witness_keys = {}
     for f in run.known:
@@ -170,7 +178,7 @@ def search(run, info):
                               {"input": {"text": t}}, no_input=True)
     return {"coverage": {
         "rule": "parse -> render -> parse -> render on units of the AST-level generator, the exhaustive operator-pair and statement-nesting "
-                "families, every repository fixture and the witnesses of the recorded renderer gaps; sources the parser rejects are skipped; a failed "
+                "families, the character-string escape family, every repository fixture and the witnesses of the recorded renderer gaps; sources the parser rejects are skipped; a failed "
                 "round trip is attributed to a known finding only when the way it fails matches that finding's pattern and (for AST-level "
                 "units) the unit contains the construct; non-trivial = every accepted source, distinct by text",
         "outcomes": stats,
